@@ -524,8 +524,8 @@ where
 
     fn set_resample_ratio(&mut self, new_ratio: f64, ramp: bool) -> ResampleResult<()> {
         trace!("Change resample ratio to {}", new_ratio);
-        if (new_ratio / self.resample_ratio_original >= 1.0 / self.max_relative_ratio)
-            && (new_ratio / self.resample_ratio_original <= self.max_relative_ratio)
+        if (new_ratio >= self.resample_ratio_original / self.max_relative_ratio)
+            && (new_ratio <= self.resample_ratio_original * self.max_relative_ratio)
         {
             if !ramp {
                 self.resample_ratio = new_ratio;
@@ -543,7 +543,17 @@ where
 
     fn set_resample_ratio_relative(&mut self, rel_ratio: f64, ramp: bool) -> ResampleResult<()> {
         let new_ratio = self.resample_ratio_original * rel_ratio;
-        self.set_resample_ratio(new_ratio, ramp)
+        if (rel_ratio >= 1.0 / self.max_relative_ratio) && (rel_ratio <= self.max_relative_ratio) {
+            // original * (1 / max) can round to just below original / max
+            let min_ratio = self.resample_ratio_original / self.max_relative_ratio;
+            self.set_resample_ratio(new_ratio.max(min_ratio), ramp)
+        } else {
+            Err(ResampleError::RatioOutOfBounds {
+                provided: new_ratio,
+                original: self.resample_ratio_original,
+                max_relative_ratio: self.max_relative_ratio,
+            })
+        }
     }
 
     fn reset(&mut self) {
@@ -855,8 +865,8 @@ where
 
     fn set_resample_ratio(&mut self, new_ratio: f64, ramp: bool) -> ResampleResult<()> {
         trace!("Change resample ratio to {}", new_ratio);
-        if (new_ratio / self.resample_ratio_original >= 1.0 / self.max_relative_ratio)
-            && (new_ratio / self.resample_ratio_original <= self.max_relative_ratio)
+        if (new_ratio >= self.resample_ratio_original / self.max_relative_ratio)
+            && (new_ratio <= self.resample_ratio_original * self.max_relative_ratio)
         {
             if !ramp {
                 self.resample_ratio = new_ratio;
@@ -876,7 +886,17 @@ where
 
     fn set_resample_ratio_relative(&mut self, rel_ratio: f64, ramp: bool) -> ResampleResult<()> {
         let new_ratio = self.resample_ratio_original * rel_ratio;
-        self.set_resample_ratio(new_ratio, ramp)
+        if (rel_ratio >= 1.0 / self.max_relative_ratio) && (rel_ratio <= self.max_relative_ratio) {
+            // original * (1 / max) can round to just below original / max
+            let min_ratio = self.resample_ratio_original / self.max_relative_ratio;
+            self.set_resample_ratio(new_ratio.max(min_ratio), ramp)
+        } else {
+            Err(ResampleError::RatioOutOfBounds {
+                provided: new_ratio,
+                original: self.resample_ratio_original,
+                max_relative_ratio: self.max_relative_ratio,
+            })
+        }
     }
 
     fn reset(&mut self) {
